@@ -106,6 +106,7 @@ type Frame struct {
 	done    map[string][]*ssa.BasicBlock
 	iter    *iterMode
 	loopDefers []*ssa.Defer
+	reads   []tokenRead
 }
 
 func (vc *VC) note(format string, a ...any) {
@@ -429,7 +430,7 @@ func (f *Frame) run(reach0 string) {
 			// havoc
 			mod := vc.loopMod(li)
 			pre := st.clone()
-			vc.he.havoc(st, mod)
+			f.havocKeeping(st, mod, pkgOfFn(f.fn))
 			if f.top && !mod.Top {
 				// replay hint: "the counterexample happens in the first iteration"
 				for _, l := range sortedKeys(mod.Locs) {
@@ -490,8 +491,12 @@ func (f *Frame) mergeVals(vs []Val, conds []string, typ types.Type, name string)
 		if v.addr != nil {
 			unsupported("phi over interior addresses (%s) in %s", name, f.fn)
 		}
-		if v.fn != nil || v.rng != nil {
-			unsupported("phi over function/range values (%s) in %s", name, f.fn)
+		if v.rng != nil {
+			unsupported("phi over range values (%s) in %s", name, f.fn)
+		}
+		if v.fn != nil {
+			// different function values merge into an unknown function value (calls havoc everything)
+			return Val{t: f.vc.sc.freshConst("funcval:"+name, "Int"), typ: typ}
 		}
 	}
 	if vs[0].tup != nil {
@@ -1092,6 +1097,7 @@ func (f *Frame) backEdges(b *ssa.BasicBlock) {
 		f.reach[b] = cond
 		f.checkInvariants(li, "inv-keep", phiVal, phis, f.cur)
 		f.checkMeasure(li, phiVal, phis, f.cur)
+		f.checkEosExit(li, s)
 		f.reach[b] = saved
 		delete(f.edge, [2]int{b.Index, s.Index})
 	}
